@@ -38,6 +38,7 @@ SOURCE = {m: "stat" for m in STAT_M}
 SOURCE.update({m: "status" for m in STATUS_M})
 SOURCE.update({m: "smaps" for m in SMAPS_M})
 SOURCE["ppid"] = "stat"
+FRONT_MEMOIZED = {"cpu_times", "uids", "ppid", "memory_info"}
 SOURCE["username"] = "status"
 SOURCE["cpu_percent"] = "stat"
 
@@ -504,9 +505,16 @@ def judge_schedule(scn, sch, log):
                     src = SOURCE[m]
                     if not v > rec["entry_counter"]:
                         viols.append(("inblock_value_older_than_block_entry", ctx_base + f" {tag} {rec}"))
-                    if src in firsts and firsts[src] != v:
-                        viols.append(("inblock_values_differ_for_one_source", ctx_base + f" {tag} {rec}"))
-                    firsts.setdefault(src, v)
+                    if src in firsts and firsts[src][1] != v:
+                        mech = "inblock_values_differ_for_one_source"
+                        m0, v0 = firsts[src]
+                        if m0 in FRONT_MEMOIZED and m not in FRONT_MEMOIZED and v0 < v:
+                            # the front-end cache (cpu_times/uids/ppid/memory_info) holds a value another thread put
+                            # there while the block was being entered, before the platform-level cache was activated;
+                            # the platform-level source is then read again by a method cached at that level only
+                            mech += ":frontend_cache_filled_before_platform_cache_activated"
+                        viols.append((mech, ctx_base + f" {tag} {rec}"))
+                    firsts.setdefault(src, (m, v))
             else:
                 v = rec["v"]
                 if v is None:
